@@ -587,6 +587,7 @@ func TestVerifC13Pipeline(t *testing.T) {
 		spec, obj, err := vfNewObject(env, text)
 		if err != nil {
 			vf.Class("rejected")
+			vfClassCrossRefBounds(vf, "rejected-with ", g)
 			vf.Case(false, "", nil)
 			return
 		}
@@ -613,6 +614,18 @@ func TestVerifC13Pipeline(t *testing.T) {
 		var classes []string
 		for i := 0; i < nreq; i++ {
 			rq := vfGenAnyReq(rt, info.MQTT)
+			if rq.http != nil {
+				// aim at a filtered pool of the pipeline's first Proxy (see vfAimAtPool)
+				fs, _ := body["filters"].([]interface{})
+				for _, f := range fs {
+					if fm, ok := f.(map[string]interface{}); ok && fm["kind"] == "Proxy" {
+						if aimed := vfAimAtPool(rt, fm, rq.http); aimed != "" {
+							vf.Class("proxy-request-aimed-at " + aimed)
+						}
+						break
+					}
+				}
+			}
 			ctx, ok := rq.Context(env)
 			if !ok {
 				continue
